@@ -166,6 +166,9 @@ class Run(object):
     def handle(self, pi, via):
         if via == "fresh" or self.held is None:
             paras = list(self.file)
+            if len(paras) != len(self.doc.paras):
+                raise Violation("paragraph-count-differs", "iterate",
+                                {"got": len(paras), "want": len(self.doc.paras)})
             if self.held is None:
                 self.held = paras
             p = paras[pi]
